@@ -27,13 +27,31 @@ Inductive robs :=
 | RDisk (evs : list int) (processed : int)
 | RSub (lastr : int) (ondisk : bool) (err : int) (newly : list int).
 
+(* one concurrent reader: kind 0 = subscriber loop (persisted log / LoopProcessLogData
+   alternation) run in its own goroutine, kind 1 = one LoopProcessLogData(t0) call made
+   while the others run; [complete] = it was run to quiescence after all appenders had
+   finished and everything was flushed *)
+Inductive rhist := RH (kind : int) (t0 : int) (complete : bool) (got : list int).
+
 Record case := {
   c_cap : int;          (* buffer size in bytes (BufferSize) *)
   c_iv : int;           (* flushInterval, ns *)
   c_hf : bool;          (* flushFn != nil *)
   c_t0 : int;           (* the subscriber's SinceNs *)
   c_ops : list rop;
-  c_impl : list robs    (* what the implementation showed after each op *)
+  c_impl : list robs;   (* what the implementation showed after each op *)
+  (* --- histories recorded from real goroutines (c_mode <> 0) --- *)
+  c_mode : int;         (* 0 sequential schedule (everything above, fields below empty);
+                           1 paced concurrent history: c_ops/c_impl = the mutators' calls
+                             (AddToBuffer / interval seal) in the order in which they ran
+                             (they are serialised by a harness mutex and wait while two sealed
+                             buffers are unflushed, so the history stays outside finding 0);
+                             lastFlushTime in the state projections is masked (the flush
+                             goroutine runs freely); readers run concurrently;
+                           2 free-running stress on NewLogBuffer (real loopInterval, Shutdown
+                             during reads): only order/no-duplicate/no-invention is required *)
+  c_segs : list (list int);   (* what flushFn was handed, call by call: ts1, id1, ts2, id2 ... *)
+  c_readers : list rhist
 }.
 
 Definition zi (i : int) : Z := if PrimInt63.eqb i zero_time then zeroT else Uint63.to_Z i.
@@ -122,18 +140,69 @@ Fixpoint prop_walk (t0 : Z) (ops : list op) (impl : list obs) (evs : list (Z * N
   | _, _ => (ok, evs, subgot)
   end.
 
+Fixpoint last_sub_parked (impl : list obs) (acc : bool) : bool :=
+  match impl with
+  | [] => acc
+  | OSub _ d e _ :: impl' => last_sub_parked impl' (d && (e =? 1)%N)
+  | _ :: impl' => last_sub_parked impl' acc
+  end.
+
 Definition prop_ok (hf : bool) (t0 : Z) (ops : list op) (impl : list obs) : bool :=
   let '(ok, evs, g) := prop_walk t0 ops impl [] [] true in
   ok && strictly_inc 0 evs &&
-  (* every case ends with a drain: with a flush function, everything later than t0 has arrived *)
-  (if hf then evs_eqb g (filter (fun e => t0 <? fst e) evs) else true).
+  (* every case ends with a drain: with a flush function, everything later than t0 has arrived;
+     without one (nothing is ever persisted by this buffer) the subscriber has either received
+     everything or ended parked on the persisted log after a ResumeFromDiskError (it is behind
+     the last seal: c22_nil_flush_liveness_refuted) -- a silent trailing skip is neither *)
+  (evs_eqb g (filter (fun e => t0 <? fst e) evs) || (negb hf && last_sub_parked impl false)).
+
+(* ---- concurrent histories ---- *)
+Definition mask_flush (o : obs) : obs :=
+  match o with
+  | OState (a :: b :: c :: d :: e :: f :: _ :: r) => OState (a :: b :: c :: d :: e :: f :: 0 :: r)
+  | o => o
+  end.
+Definition seg_obs (c : Z) (iv : Z) (ops : list op) : list (list (Z * N)) :=
+  (* model: the mutators' schedule without any flush step, then Shutdown's copyToFlush:
+     the flush queue holds the sealed buffers in seal order *)
+  let y := run iv true {| buf := init c; subs := sub_init 0 |} ops in
+  map (fun g => ev_obs (g_data g)) (queue (seal true (buf y))).
+Fixpoint segs_eqb (a b : list (list (Z * N))) : bool :=
+  match a, b with
+  | [], [] => true
+  | x :: a', y :: b' => evs_eqb x y && segs_eqb a' b'
+  | _, _ => false
+  end.
+Fixpoint mem_ev (e : Z * N) (l : list (Z * N)) : bool :=
+  match l with
+  | [] => false
+  | x :: l' => ((fst e =? fst x) && (snd e =? snd x)%N) || mem_ev e l'
+  end.
+Definition reader_ok (mode : int) (evs : list (Z * N)) (r : rhist) : bool :=
+  match r with
+  | RH _ t0 complete got =>
+    let g := evs_of got in
+    let t := zi t0 in
+    strictly_inc t g && forallb (fun e => mem_ev e evs) g &&
+    (if PrimInt63.eqb mode 2 then true
+     else contiguous evs t g &&
+          (if complete then evs_eqb g (filter (fun e => t <? fst e) evs) else true))
+  end.
+Definition added_ids (ops : list op) : list N :=
+  flat_map (fun o => match o with Add _ _ id => [id] | _ => [] end) ops.
+Fixpoint nlist_eqb (a b : list N) : bool :=
+  match a, b with
+  | [], [] => true
+  | x :: a', y :: b' => (x =? y)%N && nlist_eqb a' b'
+  | _, _ => false
+  end.
 
 Definition sealed_once (i : obs) : bool :=
   match i with OState v => 0 <? nth 16 v 0 | _ => false end.
 Definition sub_got_some (i : obs) : bool :=
   match i with OSub _ _ _ (_ :: _) => true | _ => false end.
 
-Definition check (c : case) : outcome :=
+Definition check_seq (c : case) : outcome :=
   let ops := map op_of (c_ops c) in
   let impl := map obs_of (c_impl c) in
   let y0 := {| buf := init (zi (c_cap c)); subs := sub_init (zi (c_t0 c)) |} in
@@ -141,5 +210,38 @@ Definition check (c : case) : outcome :=
      o_prop := prop_ok (c_hf c) (zi (c_t0 c)) ops impl;
      o_trig := run_trig (zi (c_iv c)) (c_hf c) y0 ops;
      o_nontrivial := existsb sealed_once impl && existsb sub_got_some impl |}.
+
+(* histories from real goroutines.  The events are what flushFn was handed (after Shutdown
+   that is every appended record, in buffer order).
+   mode 1: o_corr = the mutators' schedule replayed on the model gives the same state
+   projections (lastFlushTime masked) and the same flushed buffers; o_prop = flushed data
+   strictly increasing and = the appended records in call order, every reader received a
+   strictly increasing, contiguous range starting after its t0, readers run to quiescence
+   received everything.  mode 2: flushed data strictly increasing, every id exactly once
+   is NOT required of the readers (the ring may evict, finding 0): they must be strictly
+   increasing and receive only appended events. *)
+Definition check_conc (c : case) : outcome :=
+  let ops := map op_of (c_ops c) in
+  let impl := map obs_of (c_impl c) in
+  let y0 := {| buf := init (zi (c_cap c)); subs := sub_init 0 |} in
+  let segs := map evs_of (c_segs c) in
+  let evs := concat segs in
+  let m1 := PrimInt63.eqb (c_mode c) 1 in
+  {| o_corr := if m1 then
+                 all2 obs_eqb (map mask_flush (run_obs (zi (c_iv c)) true y0 ops)) (map mask_flush impl)
+                 && segs_eqb (seg_obs (zi (c_cap c)) (zi (c_iv c)) ops) segs
+               else true;
+     o_prop := strictly_inc 0 evs
+               && (if m1 then nlist_eqb (map snd evs) (added_ids ops)
+                              && fst (fst (prop_walk 0 ops impl [] [] true))
+                              && evs_eqb (snd (fst (prop_walk 0 ops impl [] [] true))) evs
+                   else true)
+               && forallb (reader_ok (c_mode c) evs) (c_readers c);
+     o_trig := None;
+     o_nontrivial := (1 <? Z.of_nat (length segs))
+                     && existsb (fun r => match r with RH _ _ _ (_ :: _) => true | _ => false end) (c_readers c) |}.
+
+Definition check (c : case) : outcome :=
+  if PrimInt63.eqb (c_mode c) 0 then check_seq c else check_conc c.
 
 Definition summarize_cases (l : list case) : summary := summarize check l.
